@@ -306,7 +306,8 @@ async def run_serial(ctx) -> None:
 # ---------------------------------------------------------------------------------------
 
 def dtm_of(i: int) -> str:
-    return (_dt.datetime(2023, 11, 5, 8, 0, 0) + _dt.timedelta(seconds=i * 0.731)).isoformat(timespec="microseconds")
+    secs = float(int(i * 0.731)) if i % 7 == 0 else i * 0.731  # every 7th entry is stamped on a whole second (second-resolution logs)
+    return (_dt.datetime(2023, 11, 5, 8, 0, 0) + _dt.timedelta(seconds=secs)).isoformat(timespec="microseconds")
 
 
 async def run_file(ctx, as_dict: bool) -> None:
@@ -349,6 +350,19 @@ async def run_file(ctx, as_dict: bool) -> None:
         msg = isolate_msg(ctx, pkt, "file")
         if msg is not None:
             want.append((pkt_key(pkt), pkt.dtm.isoformat()))
+            # C02, the saved-state / packet-dict form of a log line: repr(pkt) is '<26-char timestamp> <frame ...>', which is what
+            # get_state() writes and what the replayer slices at [:26] / [27:] -- it must give back an equal packet, same timestamp
+            rp = repr(pkt)
+            try:
+                back = Packet.from_dict(rp[:26], rp[27:])
+                same = str(back) == str(pkt) and back.dtm == pkt.dtm
+            except Exception as err:  # noqa
+                same, back = False, f"{type(err).__name__}: {err}"
+            if not same:
+                ctx.violate("C02", "dict_line_roundtrip", "", f"repr(pkt) = {rp!r} does not read back as the packet stamped "
+                            f"{pkt.dtm.isoformat()} ({str(back)[:120]})")
+            else:
+                ctx.probe("dict_line_roundtrips")
     got = []
 
     def handler(msg):
